@@ -43,6 +43,24 @@ def _nowalrus(e):
     return T().visit(clone(e))
 
 
+def mutable_cells(m):
+    """Cells a control method (set_*/seek) can write: 'data.<field>' for fields of the renderable-data namespace, 'self._x' for iterator attributes."""
+    mutable = set()
+    for meth in CONTROL:
+        f = m.get(IT, f"RenderIterator.{meth}")
+        for t, st in stores_in(ast.Module(body=f.body, type_ignores=[])):
+            d = dotted(t) or ""
+            if d.startswith("self._renderable_data."):
+                mutable.add("data." + d.split(".")[-1])
+            elif d.startswith("self._"):
+                mutable.add(d)
+        for c in body_walk(f):
+            if isinstance(c, ast.Call) and norm(c.func) in ("renderable_data.update", "self._renderable_data.update"):
+                for k in c.keywords:
+                    mutable.add("data." + k.arg)
+    return mutable
+
+
 def iterate_facts(ck, m):
     """The frame generator with its locals renamed to the roles the rules are written with (tiv.roles): frame, cache, frame_no,
     cache_entry, frame_details, renderable, renderable_data."""
@@ -123,19 +141,7 @@ def run(ck, m):
     rule_memo_safety(ck, m, "MEMO", "C09")          # first: a memoised helper also hides the code it wraps from the rules below
     itf, rc = iterate_facts(ck, m)
     # ---- R1 ----------------------------------------------------------------------------
-    mutable = set()
-    for meth in CONTROL:
-        f = m.get(IT, f"RenderIterator.{meth}")
-        for t, st in stores_in(ast.Module(body=f.body, type_ignores=[])):
-            d = dotted(t) or ""
-            if d.startswith("self._renderable_data."):
-                mutable.add("data." + d.split(".")[-1])
-            elif d.startswith("self._"):
-                mutable.add(d)
-        for c in body_walk(f):
-            if isinstance(c, ast.Call) and norm(c.func) in ("renderable_data.update", "self._renderable_data.update"):
-                for k in c.keywords:
-                    mutable.add("data." + k.arg)
+    mutable = mutable_cells(m)
     ck.expect({"data.size", "data.duration", "self._render_args", "data.frame_offset"} <= mutable, f"mutable cells discovered from the setters look incomplete: {sorted(mutable)}")
     # inputs of _render_: the render data (all namespace fields) and the second argument
     inputs = {x for x in mutable if x.startswith("data.")} | {norm(rc.args[1])}
@@ -144,16 +150,20 @@ def run(ck, m):
     while miss_if is not None and not isinstance(miss_if, ast.If):
         miss_if = getattr(miss_if, "_p", None)
     ck.need(miss_if is not None, "_iterate: the `if` that decides a cache miss (around the _render_ call) not found")
-    cmps_ = [c for c in ast.walk(miss_if.test) if isinstance(c, ast.Compare) and len(c.ops) == 1 and isinstance(c.ops[0], (ast.NotEq, ast.Eq))]
+    # the miss condition as the disjuncts of its traced truth value (locals, helper closures, conditional expressions and walruses
+    # resolved): `not (cache[n][0] if cache else None) or cache[n][1:] != (...)` -> [not cache, not cache[n][0], cache[n][1:] != (...)]
+    from tiv.sem import disjuncts
+    KEEPM = ("cache", "frame_no", "renderable_data")
+    D = disjuncts(_nowalrus(trace(itf, miss_if.test, keep=KEEPM)))
     cmp_, cur_side, oth_side = None, None, None
-    for c in cmps_:
-        for a_, b_ in ((c.left, c.comparators[0]), (c.comparators[0], c.left)):
-            ta = trace(itf, a_, keep=("cache", "frame_no", "renderable_data"))
-            if isinstance(ta, ast.Tuple) and any("renderable_data." in norm(e) or "self._render_args" in norm(e) for e in ta.elts):
-                cmp_, cur_side, oth_side = c, ta, b_
+    for c in D:
+        if isinstance(c, ast.Compare) and len(c.ops) == 1 and isinstance(c.ops[0], (ast.NotEq, ast.Eq)):
+            for a_, b_ in ((c.left, c.comparators[0]), (c.comparators[0], c.left)):
+                if isinstance(a_, ast.Tuple) and any("renderable_data." in norm(e) or "self._render_args" in norm(e) for e in a_.elts):
+                    cmp_, cur_side, oth_side = c, a_, b_
     if cmp_ is None:
         # not the tuple form: every setting that can change must at least be compared UNCONDITIONALLY by a disjunct of the miss test
-        disj = [_nowalrus(trace(itf, d_, keep=("cache", "frame_no", "renderable_data", "frame"))) for d_ in flatten_boolop(miss_if.test, ast.Or)]
+        disj = D
         decided = False
         for cell in sorted(need):
             src_ = cell.replace("data.", "renderable_data.")
@@ -171,7 +181,7 @@ def run(ck, m):
         return
     compared = [norm(e).replace("renderable_data.", "data.") for e in cur_side.elts]
     # the details compared must be the ones stored WITH THE ENTRY looked up under the current frame number
-    oth_t = norm(_nowalrus(trace(itf, oth_side, keep=("cache", "frame_no"))))
+    oth_t = norm(oth_side)
     per_entry = oth_t == "cache[frame_no][1:]"
     ck.ob("R1", miss_if, per_entry,
           f"the settings a cached frame is validated against (`{norm(oth_side)}` = `{oth_t[:80]}`) are not the ones stored with that entry (cache[frame_no][1:]): details shared between entries say nothing about "
@@ -185,9 +195,6 @@ def run(ck, m):
     stored = [norm(e).replace("renderable_data.", "data.") for e in store.value.elts[1:]] if store is not None else None
     ck.ob("R1", store or itf, stored == compared, f"details stored with a frame {stored} differ from the details compared {compared}", stmt="stored details == compared details")
     ck.ob("R1", store or itf, store is not None and norm(store.targets[0].slice) == "frame_no" and rc.lineno < store.lineno, "the frame must be stored under its own frame number after the render", stmt="cache[frame_no] stored after render")
-    det = next((s for s in body_walk(itf) if isinstance(s, ast.Assign) and norm(s.targets[0]) == "frame_details"), None)
-    ck.ob("R1", det or itf, det is not None and norm(_nowalrus(trace(itf, det.value, keep=("cache", "frame_no")))) == "cache[frame_no][1:]",
-          "frame_details must be everything stored after the frame in the entry looked up under the current frame number (cache[frame_no][1:])", stmt="frame_details = cache[frame_no][1:]")
     fno = [st for t, st in stores_in(ast.Module(body=itf.body, type_ignores=[])) if isinstance(t, ast.Name) and t.id == "frame_no"]
     ys = [s for s in itf.body if isinstance(s, ast.Expr) and isinstance(s.value, ast.Yield)]
     first = min(fno, key=lambda s: s.lineno) if fno else None
@@ -195,7 +202,15 @@ def run(ck, m):
           "the cache index of the first frame must be the frame number actually rendered (frame_offset read after the dummy yield): otherwise a frame rendered after an early seek "
           "is cached - and later served - as frame 0", stmt="cache index = rendered frame number (frame_no from frame_offset after the dummy yield)")
     upd = [s for s in body_walk(itf) if isinstance(s, ast.Assign) and norm(s.targets[0]) == "frame_no" and s is not first]
-    ck.ob("R1", itf, all("renderable_data.frame_offset" in norm(s.value) or norm(s.value).endswith("= 0") or "frame_offset = 0" in norm(s) for s in upd),
+    def follows(s_):
+        if "renderable_data.frame_offset" in norm(s_.value) or any(norm(t_) == "renderable_data.frame_offset" for t_ in s_.targets):
+            return True
+        # `frame_no = c` next to `renderable_data.frame_offset = c` (a chained assignment written as two statements)
+        blk = getattr(s_._p, "body", []) if s_ in getattr(s_._p, "body", []) else getattr(s_._p, "orelse", [])
+        i_ = next((k for k, x in enumerate(blk) if x is s_), None)
+        nb = [blk[j] for j in (i_ - 1, i_ + 1) if i_ is not None and 0 <= j < len(blk)]
+        return isinstance(s_.value, ast.Constant) and any(isinstance(x, ast.Assign) and any(norm(t_) == "renderable_data.frame_offset" for t_ in x.targets) and norm(x.value) == norm(s_.value) for x in nb)
+    ck.ob("R1", itf, all(follows(s) for s in upd),
           "frame_no must follow renderable_data.frame_offset between frames", stmt="frame_no follows frame_offset")
 
     # ---- R2 ----------------------------------------------------------------------------
@@ -213,7 +228,7 @@ def run(ck, m):
     ini = m.get(IT, "RenderIterator._init")
     cs = next((st for t, st in stores_in(ast.Module(body=ini.body, type_ignores=[])) if norm(t) == "self._cached"), None)
     ck.need(cs is not None, "_init: store of self._cached not found")
-    v = cs.value
+    v = trace(ini, cs.value, keep=("indefinite", "cache", "renderable"))
     ok = isinstance(v, ast.IfExp) and norm(v.test) == "indefinite" and norm(v.body) == "False" and isinstance(v.orelse, ast.IfExp) and norm(v.orelse.body) == "cache" \
         and norm(v.orelse.test) in ("type(cache) is bool", "isinstance(cache, bool)") and norm(v.orelse.orelse) == "renderable.frame_count <= cache"
     ck.ob("R3", cs, ok, f"_cached must be False for INDEFINITE sources, `cache` if it is a bool, else `frame_count <= cache`; found `{short(v, 90)}`", stmt="_init: _cached decision")
@@ -244,12 +259,37 @@ def run(ck, m):
           "draw() must hand its cache argument to _animate_ unchanged", stmt="draw: passes cache")
 
     # ---- R4 ----------------------------------------------------------------------------
-    gs = [norm(t) for t, b in guards(rc) if b]
-    ck.ob("R4", enclosing_stmt(rc), any("not frame or frame_details !=" in g_ for g_ in gs),
-          f"_render_ is called outside the miss condition (guards: {gs}): a cached frame whose settings are unchanged would be rendered again", stmt="_iterate: _render_ only on a miss")
-    fr = next((s for s in body_walk(itf) if isinstance(s, ast.Assign) and norm(s.targets[0]) == "frame" and norm(_nowalrus(trace(itf, s.value, keep=("cache", "frame_no")))) == "cache[frame_no][0]"), None)
-    els = next((s for s in body_walk(itf) if isinstance(s, ast.If) and norm(s.test) == "cache" and s.orelse and norm(s.orelse[0]) == "frame = None"), None)
-    ck.ob("R4", els or itf, fr is not None and els is not None, "without a cache the frame must start as None (forcing a render); with one it comes from cache[frame_no]", stmt="_iterate: frame = cached entry or None")
+    # the render happens exactly on a miss: besides the details comparison the only disjuncts are "no cache" and "no frame in the entry"
+    kinds = {}
+    for d_ in D:
+        nd = norm(d_)
+        k_ = "details" if d_ is cmp_ else "nocache" if nd == "not cache" else "noframe" if nd == "not cache[frame_no][0]" else "other"
+        kinds.setdefault(k_, []).append(nd)
+    inner_if = rc
+    while inner_if is not None and not isinstance(inner_if, (ast.If, ast.While, ast.For)):
+        inner_if = getattr(inner_if, "_p", None)
+    ck.ob("R4", enclosing_stmt(rc), inner_if is miss_if and "other" not in kinds and {"nocache", "noframe", "details"} <= set(kinds),
+          f"_render_ must be called exactly on a miss (no cache, no frame stored for this number, or other settings): the miss condition has the disjuncts {[x[:60] for v_ in kinds.values() for x in v_]}"
+          ": a cached frame whose settings are unchanged would be rendered again, or an empty entry served", stmt="_iterate: _render_ only on a miss")
+    # what is served on a hit is the entry's frame: the value of the frame variable at the miss test, specialised to "not a miss"
+    fv = next((t.id for t in (enclosing_stmt(rc).targets if isinstance(enclosing_stmt(rc), ast.Assign) else []) if isinstance(t, ast.Name)), None)
+    ck.expect(fv is not None, "_iterate: the variable the rendered frame is bound to not found")
+    if fv is not None:
+        Dn = {norm(d_) for d_ in D}
+
+        def hit_value(e):
+            while isinstance(e, ast.IfExp):
+                if all(norm(x) in Dn for x in disjuncts(e.test)):
+                    e = e.orelse                # a test that implies a miss is false on a hit
+                elif all(norm(x) in Dn for x in disjuncts(ast.UnaryOp(op=ast.Not(), operand=e.test))):
+                    e = e.body
+                else:
+                    break
+            return e
+        probe = ast.Name(id=fv, ctx=ast.Load())
+        hv = hit_value(_nowalrus(trace(itf, probe, use=miss_if.test, keep=KEEPM)))
+        ck.ob("R4", miss_if, norm(hv) == "cache[frame_no][0]", f"on a hit the frame served must be the one stored in the entry of the current frame number (cache[frame_no][0]); it is `{short(hv, 80)}`",
+              stmt="_iterate: frame = cached entry or None")
 
     # ---- R5 ----------------------------------------------------------------------------
     ia = m.get(CM, "ImageIterator._animate")
